@@ -22,26 +22,46 @@ def pre(rep):
         rep.violation({"property": "C04",
                        "broken_tie": "tools/gen_c04 could not translate the property tables of /repo (source outside the accepted subset, or parse error)",
                        "log_tail": out[-3000:]}, name="translator", no_input=True)
-    return {"coverage": {"translator": "tools/gen_c04 (go/ast, stdlib only) -> coq/theories/Generated/PropTables.v: " + out.strip()[-200:]}}
+        return {"coverage": {"translator": "FAILED: " + out.strip()[-300:]}}
+    cov = {"translator": "tools/gen_c04 (go/ast, stdlib only) -> coq/theories/Generated/PropTables.v: " + out.strip()[-200:]}
+    # table audit: entries of the regenerated tables that differ from the tables transcribed from the CSS
+    # specifications (the theorems over Generated/PropTables.v say there is none)
+    rc, out = corr.coq_make(["theories/Check/C04.vo"])
+    if rc == 0:
+        os.makedirs(os.path.join(corr.WORK, "C04"), exist_ok=True)
+        vals = corr.eval_terms("C04", "Check.C04", ["table_diffs"], tag="tables")
+        diffs = vals[0].strip() if vals else "?"
+        cov["table_audit"] = diffs[:2000]
+        if diffs not in ("[]", "nil"):
+            rep.violation({"property": "C04",
+                           "failing_input": "table entries of /repo's source (left: source, right: CSS specification)",
+                           "entries": diffs[:6000],
+                           "meaning": "DInherited name source css: css/properties/datas.go Inherited disagrees with the CSS 'Inherited' column for that property, "
+                                      "so an element with no declaration for it takes the wrong default (e.g. <p style=\"NAME: V\"><span> no longer / wrongly inherits V); "
+                                      "DUnit / DBolder / DLighter / DFontSizeRatio / DBorderKeyword: LengthsToPixels, fontWeightRelative, FontSizeKeywords, borderWidthKeywords "
+                                      "differ from CSS Values 3 5.2 / CSS Fonts 3 3.2, 3.5 / CSS 2.1 8.5.1",
+                           "contradicts": "C04_property_tables_spec / C04_unit_table_correct / C04_font_tables_spec / C04_border_style_precedes_width"},
+                          name="tables")
+    return {"coverage": cov}
 
 
 SPEC = {
     "id": "C04",
     "harness": "c04",
-    "n": {"quick": 130, "thorough": 2000},
+    "n": {"quick": 100, "thorough": 2000},
     "shard": 12,
     "tie_codes": (),
     "pre": pre,
     "trusted_base": [
-        "tools/gen_c04: reading of the Go subset (const/iota blocks, NewSetK(...) sets, map/array literals of constants, InitialValues literals); cross-checked on every run against the runtime tables (CTab* cases)",
+        "tools/gen_c04: reading of the Go subset (const/iota blocks, NewSetK(...) sets, map/array literals of constants, InitialValues literals); cross-checked on every run against the runtime tables (CTables case)",
         "/repo hook html/tree/verif_export_c04.go (read-only accessors: style objects, cascaded declarations, computer function names, keyword tables, anonymous style constructor)",
         "Base/F32.v rounding model (validated by C17's CRound/CArith cases)",
-        "recorded oracle for computer functions outside the model (images, gradients, grid, content, string-set, transform, ex/ch units, vertical-align %, bleed auto): their result is an input, only its inheritance / caching is checked",
+        "recorded oracle for computer functions outside the model (images, gradients, grid, content, string-set, transform, ex/ch units, vertical-align %): their result is an input, only its inheritance / caching is checked",
         "outcome of var() substitution and validation of pending values is an input (C08)",
     ],
     "not_modelled": [
         "computer functions for images, gradients, grid templates, content, string-set, bookmark-label, transform, link/anchor/lang, border-image-*, background-*, clip, image-orientation (oracle)",
-        "ex / ch units and vertical-align percentages (font metrics), bleed: auto (reads marks)",
+        "ex / ch units and vertical-align percentages (font metrics)",
         "custom properties (PropKey.Var) and var() resolution (C08)",
         "StyleFor.Get's table adjustments (padding/margin reset on table boxes), ComputedStyle.Copy",
         "Gets made internally by the non-modelled computer functions (they only warm the cache)",
@@ -60,6 +80,7 @@ SPEC = {
         "doc": "C04_cache_transparent / C04_get_spec / C04_get_total",
         "corpus": "C04_cache_transparent / C04_get_spec / C04_get_total",
         "build-panic": "C04_get_total",
+        "tables": "tie of Generated/PropTables.v (C04_property_tables_spec, C04_unit_table_correct, C04_font_tables_spec)",
     },
     "rule": "SplitMix64-seeded documents (random element tree depth <= 5, UA stylesheet, style attributes / type rules / pseudo-element rules / @page rules declaring inherit, initial or validator-accepted explicit values for properties drawn from all of them), then a random history of Get calls and late constructions (page contexts, margin boxes, anonymous styles); one case per document; non-trivial = at least one cascaded declaration; distinct by seed",
 }
